@@ -103,6 +103,24 @@ UNPROTECTED_NOTE = {
 }
 
 
+def zip_v1_classify(v0, v1):
+    """names the finding when a JAR/OPC archive is accepted although its member set grew: every original (name, content) pair is
+    still there and at least one member that no digest covers was added"""
+    try:
+        a = set(x for x in v0[1] if x[1] != ("unprotected",))
+        b = set(x for x in v1[1] if x[1] != ("unprotected",))
+    except (TypeError, IndexError):
+        return None
+    if a < b:
+        return "unlisted-member"
+    return None
+
+
+FORMATS["jar"]["classify"] = zip_v1_classify
+FORMATS["vsix"]["classify"] = zip_v1_classify
+FORMATS["rpm"]["classify"] = P.rpm_classify
+
+
 def region_of(regions, off):
     for s, e, l in regions:
         if s <= off < e:
@@ -208,6 +226,14 @@ def zip_semantic(art, rng, tier):
             new = M.zip_rewrite(data, replace={a.name: b2.data(), b2.name: a.data()}, limit=limit)
             if new is not None:
                 out.append(sem("member-contents-swapped", new))
+    if fmt == "apk":
+        try:
+            z2, start, pairs = Z.apk_parts(data)
+            b = bytearray(data[:start] + data[z2.cd_start:])
+            struct.pack_into("<I", b, z2.eocd - (z2.cd_start - start) + 16, start)
+            out.append(sem("v2-block-stripped", bytes(b), "APK signing block removed, central directory offset fixed: a v1 signature that announces v2 must not verify alone (rollback protection)", expect="reject"))
+        except (Z.ZipError, struct.error):
+            pass
     # insertion before the end-of-central-directory record and between the last record and the directory
     out += [dict(x, kind="insert") for x in M.inserts(data, [("before-eocd", z.eocd), ("before-central-directory", z.cd_start), ("archive-start", 0)], rng)]
     return out
